@@ -58,11 +58,22 @@ impl PseudoArgData {
 
         Ok(PseudoArgData {
             blob: blob.map(|str| parse_args_blob(str).map(|s| sp!(str.span => s))).transpose()?,
-            param_mask: param_mask.map(|x| sp!(x.span => x.value as _)),
-            pop: pop.map(|x| sp!(x.span => x.value as _)),
-            extra_arg: extra_arg.map(|x| sp!(x.span => x.value as _)),
-            arg_count: arg_count.map(|x| sp!(x.span => x.value as _)),
+            param_mask: param_mask.map(|x| fit_pseudo(x, "mask")).transpose()?,
+            pop: pop.map(|x| fit_pseudo(x, "pop")).transpose()?,
+            extra_arg: extra_arg.map(|x| fit_pseudo(x, "arg0")).transpose()?,
+            arg_count: arg_count.map(|x| fit_pseudo(x, "nargs")).transpose()?,
         })
+    }
+}
+
+/// Converts the constant of a pseudo-arg to the integer type of the header field it sets.
+fn fit_pseudo<T: TryFrom<raw::LangInt>>(x: Sp<raw::LangInt>, name: &str) -> Result<Sp<T>, Diagnostic> {
+    match T::try_from(x.value) {
+        Ok(value) => Ok(sp!(x.span => value)),
+        Err(_) => Err(error!(
+            message("value of @{name} out of range"),
+            primary(x, "{} does not fit in the {}-byte field set by @{name}", x.value, std::mem::size_of::<T>()),
+        )),
     }
 }
 
